@@ -1,4 +1,4 @@
 SPECIFICATION SpecF
-CONSTANTS NSync=3 MaxClock=1 RetentionEnabled=TRUE Fine=TRUE Variant="asis"
+CONSTANTS NSync=3 MaxClock=1 RetentionEnabled=TRUE Fine=TRUE Variant="asis" Fixes={}
 INVARIANTS ResumeAfterKill
 CHECK_DEADLOCK FALSE
